@@ -5,6 +5,31 @@ import os
 VERIF = os.path.dirname(os.path.dirname(os.path.abspath(__file__)))
 
 CHECKS = {
+    "C06": dict(
+        text="Coq theorems about the model of both beam-search modes, for EVERY selection oracle (the recorded unstable argsort), score function, width and budget: success "
+             "implies a real walk of exactly the reported length (never below the distance, never for an unreachable target); a returned path replays to the central state with "
+             "that length, also with a BFS ball on inverse-closed graphs; when the beam is wider than the orbit and the budget covers the distance both modes succeed with exactly "
+             "the shortest distance for every history depth. Tie: the model, fed the recorded scores/selections, reproduces the implementation's result exactly; exact-k "
+             "reachability oracle; the non-inverse-closed ball case is the open known finding F15 (replayed from the corpus on every run).",
+        note="Trusted: Coq kernel; models Beam.v/Paths.v; the argsort proxy in the harness. The ball theorem requires inverse-closed generators (F15 documents why).",
+        technique="Coq proof (beam invariant for all oracles) + oracle-recorded correspondence + corpus replay of known finding",
+        design="7 (C06)"),
+    "C13": dict(
+        text="Coq theorem about the conversion model (container -> int64 -> reshape(-1, state_size)): for every dtype and every value in its range, every form of the same batch "
+             "normalises to the mathematical batch; wrong sizes are rejected. The container x dtype x shape x entry-point matrix is FINITE and enumerated exhaustively on the "
+             "implementation (~1300 cells: bfs, path queries, beam search, random walks, apply_path, MITM, find_path, definitions, create_graph; list/nested/str/np.int8..int64/"
+             "uint8/torch dtypes; flat/1-row/matrix-shaped; encoded/un-encoded; permutation/matrix), each cell compared with the plain-list cell.",
+        note="PARTIAL: the theorem covers the conversion model only; torch's real conversion rules are validated by the exhaustive enumeration and a dtype round-trip correspondence.",
+        technique="Coq proof about the conversion model + exhaustive finite enumeration against the implementation",
+        design="7 (C13)"),
+    "C18": dict(
+        text="Coq theorems about SaveLoad.v: load(save r) = r for every well-formed result (any names, central state, subset of stored layers, hashes or none, edges or none); the "
+             "strip/int key trick parses back; equality is sound and distinguishes results differing in any field. Tie: the model's store is compared with the raw content of "
+             "the file h5py wrote and the model's load with BfsResult.load (all option combinations, seeds including 0, non-ASCII and quote-bearing names); a loaded result "
+             "answers path queries on a fresh graph with the same seed as the original did.",
+        note="PARTIAL: h5py/HDF5 is an abstract key->array store. Trusted: Coq kernel, model SaveLoad.v.",
+        technique="Coq proof (string/decimal round trip) + model/implementation correspondence on real files",
+        design="7 (C18)"),
     "C04": dict(
         text="Coq theorems about the model of restore_path / find_path_to / find_path_from / revert_path (Paths.v), for every graph instance with an inverted copy, every ball "
              "depth and every query in U, under NoColl: a returned path replays from the central state to the query and its length is the true distance (dist_is); 'no path' "
